@@ -29,7 +29,9 @@ class FatIO(io.RawIOBase):
         self.mode = mode
         self.fs = fs
         self.name = str(path)
-        self._lock = threading.Lock()
+        # All handles share the lock of the filesystem: writes allocate
+        # clusters in the shared FAT and rewrite shared directories
+        self._lock = getattr(fs, "fs_lock", None) or threading.RLock()
 
         self.dir_entry = self.fs.root_dir.get_entry(path)
         if self.dir_entry.is_directory() or self.dir_entry.is_special():
@@ -119,9 +121,10 @@ class FatIO(io.RawIOBase):
 
     def close(self) -> None:
         """Close open file handles assuming lock handle."""
-        self.seek(0)
-        if self.mode.writing:
-            self.fs.flush_fat()
+        with self._lock:
+            self.seek(0)
+            if self.mode.writing:
+                self.fs.flush_fat()
         super().close()
 
     def readable(self) -> bool:
